@@ -16,7 +16,7 @@ RULES = {
 }
 CONTROL_REV = '078b142'  # thorough tier: the rules must still report the defects found (and since fixed) on the original tree
 CONTROLS = [('C16.R2', 'AffFuncBase::translation'), ('C16.R2', 'AffFuncBase::subtraction#aliasing')]
-FLOORS = {'C16.R4': 4, 'C16.R1': 36, 'C16.R2': 12, 'C16.R3': 4}
+FLOORS = {'C16.R4': 5, 'C16.R1': 36, 'C16.R2': 12, 'C16.R3': 4}
 EXPLANATION = ('Each kernel is single-path; its returned value is a polynomial in the operands, and polynomial identities over matrices of all sizes are decidable by '
                'normal-form comparison. Constructor forms (base matrix + point writes) are compared entry-wise with the documented meaning.')
 DOES_NOT_DECIDE = 'from_row_iter/remove_rows iterator plumbing (C15), % semantics beyond element-wise, floating-point rounding'
